@@ -395,6 +395,11 @@ class Crate:
                 self.enums[f"{name}::{it['name']}"] = it
             elif k == 'Static':
                 self.statics.append((name, it))
+                if not it.get('mut') and it.get('expr') is not None and 'Cell' not in it.get('ty', '') and 'Mutex' not in it.get('ty', '') and \
+                        'Atomic' not in it.get('ty', '') and 'Lock' not in it.get('ty', ''):
+                    # an immutable static without interior mutability is a named value like a constant (`static VERTEX_FORMATS: &[Row] = &[..]`)
+                    it['mod'] = name
+                    self.consts[f"{name}::{it['name']}"] = it
             elif k == 'Const':
                 it['mod'] = name
                 self.consts[f"{name}::{it['name']}"] = it
@@ -1143,7 +1148,25 @@ class Interp:
         uses = self.frame.get('uses') if self.frames else None
         if uses and segs and segs[0] in uses:
             segs = uses[segs[0]].split('::') + segs[1:]
-        return self.c.resolve(self.frame['mod'], segs)
+        r = self.c.resolve(self.frame['mod'], segs)
+        if len(segs) == 1 and r == segs[0] and segs[0][:1].isupper():
+            # a name that nothing declares: a variant brought in by a glob import of an enum (`use wgpu::VertexFormat::*;` in the block or the module)
+            globs = list(self.frame.get('globs') or []) + list((self.c.mods.get(self.frame['mod']) or {}).get('globs') or [])
+            for g in globs:
+                gp = self.c.resolve(self.frame['mod'], g.split('::'))
+                vs = None
+                if gp in self.c.enums:
+                    vs = [v_['name'] for v_ in self.c.enums[gp].get('variants', [])]
+                else:
+                    try:
+                        import schema
+                        en = schema.load().enums.get(gp)
+                        vs = list(en) if en else None
+                    except Exception:
+                        vs = None
+                if vs and segs[0] in vs:
+                    return gp + '::' + segs[0]
+        return r
 
     const_busy = set()
 
@@ -1531,6 +1554,8 @@ class Interp:
                 for u in st['item']['uses']:
                     if u['alias'] != '*':
                         self.frame.setdefault('uses', {})[u['alias']] = u['path']
+                    elif u['path'] not in self.frame.setdefault('globs', []):
+                        self.frame['globs'].append(u['path'])
         for st in stmts:
             if st['k'] == 'ItemStmt' and st['item'].get('k') == 'Const' and st['item'].get('expr') is not None:
                 env[st['item']['name']] = self.expr(st['item']['expr'], Env())       # a constant sees no locals
